@@ -91,6 +91,9 @@ def make_tree(root, config):
                 text = {"garbage": "this is {not json", "empty": "", "truncated": text[:len(text) // 2],
                         "foreign-type": text.replace('"productmd.%s"' % {"info": "composeinfo"}.get(acc, acc), '"productmd.discinfo"'),
                         "bad-version": text.replace('"version": "1.2"', '"version": "1.x"'),
+                        # junk that does not even begin with a digit (the version comparison itself may trip over it)
+                        "bad-version-word": text.replace('"version": "1.2"', '"version": "v1.2"'),
+                        "bad-version-unknown": text.replace('"version": "1.2"', '"version": "unknown"'),
                         "other-kind-1.1": t["rpms" if acc != "rpms" else "images"].replace('"version": "1.2"', '"version": "1.1"'),
                         "bad-date": re.sub(r'"date": "[0-9]{8}"', '"date": "2016"', text),
                         # intact JSON structure, but a byte inside a string that is not UTF-8 (written below)
@@ -482,7 +485,7 @@ def run_unit(unit, acc):
         loc = unit[1]
         for files in (REDUCED_PATTERNS[0], REDUCED_PATTERNS[3], ["composeinfo.json", "images.json", "image-manifest.json", "rpms.json", "rpm-manifest.json"]):
             for name in files:
-                for how in ("garbage", "empty", "truncated", "foreign-type", "bad-version", "bad-date", "other-kind-1.1", "invalid-utf8"):
+                for how in ("garbage", "empty", "truncated", "foreign-type", "bad-version", "bad-version-word", "bad-version-unknown", "bad-date", "other-kind-1.1", "invalid-utf8"):
                     config = {"locs": {loc: list(files)}, "broken": [loc, name, how], "siblings": []}
                     for seq in BOTH_ORDERS:
                         _check({"config": config, "sequence": seq}, acc, "broken")
